@@ -251,6 +251,13 @@ func (m *c19srv) react(idx int, l string) {
 			} else {
 				m.send([]c19line{m.ack(names)})
 			}
+		case "ack-rev":
+			// the server acknowledges in its own order (here: reversed), so sasl is not necessarily last
+			rev := make([]string, len(names))
+			for i, n := range names {
+				rev[len(names)-1-i] = n
+			}
+			m.send([]c19line{m.ack(rev)})
 		case "ack-minus":
 			ls := []c19line{m.ack(names)}
 			if m.p.Early && m.lateMinusAt < 0 {
@@ -628,7 +635,7 @@ func c19Large(n, l int, mixed bool, saslMech string, extraAdv, extraWanted int, 
 func init() {
 	Register(&Prop{
 		ID:   "C19",
-		Rule: "family small-universe: full product wanted W ⊆ {a,b} × SASL {none, PLAIN(u,p), EXTERNAL(\"\")} × advertised A ⊆ {a,b,sasl,zz} × reply to CAP REQ {ACK all, NAK, ACK in two lines, ACK then an unsolicited ACK :-a} × SASL continuation {AUTHENTICATE + then 903; + then 904; 908 then 904; 904 at once} = 3072 scripts (thorough: × server lines one per segment / one segment per reaction × late / immediate ACK :-a × advertised order forward / reversed), one session each against a reactive model server; family large-sets: wanted = advertised sets of N capabilities with L-byte names (quick N ∈ {10,30,60}, L ∈ {10,40}; thorough N = 1..80, L ∈ {3..200} and mixed) × SASL × extra advertised / extra wanted names, every CAP REQ line ACKed (or NAKed); a case is one session; distinct = distinct (configuration, full client/server transcript)",
+		Rule: "family small-universe: full product wanted W ⊆ {a,b,zz} × SASL {none, PLAIN(u,p), EXTERNAL(\"\")} × advertised A ⊆ {a,b,sasl,zz} × reply to CAP REQ {ACK all, NAK, ACK in two lines, ACK then an unsolicited ACK :-a, ACK in reversed order} × SASL continuation {AUTHENTICATE + then 903; + then 904; 908 then 904; 904 at once} = 3072 scripts (thorough: × server lines one per segment / one segment per reaction × late / immediate ACK :-a × advertised order forward / reversed), one session each against a reactive model server; family large-sets: wanted = advertised sets of N capabilities with L-byte names (quick N ∈ {10,30,60}, L ∈ {10,40}; thorough N = 1..80, L ∈ {3..200} and mixed) × SASL × extra advertised / extra wanted names, every CAP REQ line ACKed (or NAKed); a case is one session; distinct = distinct (configuration, full client/server transcript)",
 		Assumptions: []string{
 			"single-line CAP LS replies (CAP 3.1); multi-line LS (\"CAP * LS * :\") is outside the statement's quantifier",
 			"the server acknowledges exactly the names of the REQ line it answers (or a split of them); it never acknowledges names that were not requested except the scripted ACK :-a",
@@ -636,15 +643,15 @@ func init() {
 		},
 		Jobs: func(tier string) []Job {
 			var jobs []Job
-			replies := []string{"ack", "nak", "ack2", "ack-minus"}
+			replies := []string{"ack", "nak", "ack2", "ack-minus", "ack-rev"}
 			conts := []string{"plus-903", "plus-904", "908-904", "904"}
 			mechs := []string{"none", "PLAIN", "EXTERNAL"}
-			for wi, w := range c19Subsets([]string{"a", "b"}) {
+			for wi, w := range c19Subsets([]string{"a", "b", "zz"}) { // zz sorts after sasl
 				for _, mech := range mechs {
 					for _, rep := range replies {
 						w, mech, rep := w, mech, rep
 						name := fmt.Sprintf("small-universe/W=%d/sasl=%s/reply=%s", wi, mech, rep)
-						jobs = append(jobs, c19Job(name, wi == 3, func(yield func(p *c19Script) bool) {
+						jobs = append(jobs, c19Job(name, wi == 7, func(yield func(p *c19Script) bool) {
 							type variant struct{ batch, early, rev bool }
 							vs := []variant{{}}
 							if tier == "thorough" {
@@ -717,11 +724,11 @@ func init() {
 				switch {
 				case strings.HasPrefix(n, "large-sets/L=40/mixed=false/sasl=PLAIN"):
 					return 0
-				case strings.HasPrefix(n, "small-universe/W=3/sasl=PLAIN"), strings.HasPrefix(n, "small-universe/W=3/sasl=EXTERNAL/reply=ack-minus"):
+				case strings.HasPrefix(n, "small-universe/W=7/sasl=PLAIN"), strings.HasPrefix(n, "small-universe/W=7/sasl=EXTERNAL/reply=ack-minus"):
 					return 1
 				case strings.HasPrefix(n, "large-sets/"):
 					return 2
-				case strings.HasPrefix(n, "small-universe/W=3/"):
+				case strings.HasPrefix(n, "small-universe/W=7/"):
 					return 3
 				}
 				return 4
